@@ -234,9 +234,22 @@ Record h5file := mkF {
   f_bevents : list (Z * dset);
   f_logs : list (Z * dset);
   f_tables : list (Z * dset);
-  f_basins : list (Z * bdef) }.
+  f_basins : list (Z * bdef);
+  (* the attribute "setup:software version", a chain "a | b | c", as the
+     list of its (stripped, non-empty) segments; it is NOT part of f_attrs *)
+  f_soft : list Z }.
 
-Definition empty_file : h5file := mkF [] [] [] [] [] [].
+Definition empty_file : h5file := mkF [] [] [] [] [] [] [].
+
+(* RTDCWriter.version_brand: every task that opens its output with the
+   writer (compress, condense, tdms2rtdc) appends "dclab <version>" unless
+   that is the last segment already *)
+Definition SEG_CUR := 1.
+Definition bump_version (segs : list Z) : list Z :=
+  match segs with
+  | [] => [SEG_CUR]
+  | _ => if last segs 0 =? SEG_CUR then segs else segs ++ [SEG_CUR]
+  end.
 
 Inductive fsel := FAll | FScalar | FNone | FList (l : list Z).
 
@@ -406,14 +419,14 @@ Section Env.
                   else [] in
     let basins := if inc_basins then basin_definition_copy fit f else [] in
     let '(ev, bev) := fold_left (feat_step inc_basins f) fit ([], []) in
-    mkF (f_attrs f) ev bev logs tables basins.
+    mkF (f_attrs f) ev bev logs tables basins (f_soft f).
 
   (* ---- task wrappers --------------------------------------------------- *)
   (* log names: the harness reserves these numbers *)
   Definition L_CMD := 900.       (* dclab-compress / dclab-condense *)
   Definition L_WARN := 901.      (* ...-warnings *)
-  Definition L_CMD_OLD := 902.   (* dclab-compress_<md5 of the input> *)
-  Definition L_WARN_OLD := 903.
+  (* the names dclab-compress_<md5 of the input> of renamed command logs
+     differ from run to run: they are arguments [kold], [kwold] *)
 
   Definition rename_log (old new : Z) (keep_existing : bool)
              (logs : list (Z * dset)) : list (Z * dset) :=
@@ -430,14 +443,20 @@ Section Env.
   Definition cmd_log : dset := mkD [] None 2 100 (Some [5]) [] [].
 
   Definition with_logs (f : h5file) (logs : list (Z * dset)) : h5file :=
-    mkF (f_attrs f) (f_events f) (f_bevents f) logs (f_tables f) (f_basins f).
+    mkF (f_attrs f) (f_events f) (f_bevents f) logs (f_tables f) (f_basins f)
+        (f_soft f).
 
-  Definition compress (warned : bool) (f : h5file) : h5file :=
+  Definition with_soft (f : h5file) (soft : list Z) : h5file :=
+    mkF (f_attrs f) (f_events f) (f_bevents f) (f_logs f) (f_tables f)
+        (f_basins f) soft.
+
+  Definition compress (warned : bool) (kold kwold : Z) (f : h5file) : h5file :=
     let g := rtdc_copy FAll true true true f in
-    let l1 := rename_log L_CMD L_CMD_OLD false (f_logs g) in
-    let l2 := rename_log L_WARN L_WARN_OLD false l1 in
+    let l1 := rename_log L_CMD kold false (f_logs g) in
+    let l2 := rename_log L_WARN kwold false l1 in
     let l3 := l2 ++ [(L_CMD, cmd_log)] in
-    with_logs g (if warned then l3 ++ [(L_WARN, cmd_log)] else l3).
+    with_soft (with_logs g (if warned then l3 ++ [(L_WARN, cmd_log)] else l3))
+              (bump_version (f_soft g)).
 
   Definition repack (strip_basins strip_logs : bool) (f : h5file) : h5file :=
     rtdc_copy FAll (negb strip_basins) (negb strip_logs) true f.
@@ -466,12 +485,19 @@ Section Env.
               else [] in
     nodupZ (sc_loaded ++ fb ++ fa).
 
-  Definition condense (store_anc store_basin warned : bool)
+  (* [is_hdf5] = isinstance(ds, RTDC_HDF5): a .tdms input is not copied,
+     every selected feature goes through the writer; nothing else of the
+     source is carried over *)
+  Definition condense_base (is_hdf5 : bool) (f : h5file) : h5file :=
+    if is_hdf5 then rtdc_copy FScalar true true true f else empty_file.
+
+  Definition condense (store_anc store_basin warned is_hdf5 : bool)
+             (kold kwold : Z)
              (loaded basin anc : list Z) (f : h5file) : h5file :=
-    let g := rtdc_copy FScalar true true true f in
+    let g := condense_base is_hdf5 f in
     let feats := condense_features store_anc store_basin loaded basin anc g in
-    let l1 := rename_log L_CMD L_CMD_OLD true (f_logs g) in
-    let l2 := rename_log L_WARN L_WARN_OLD true l1 in
+    let l1 := rename_log L_CMD kold true (f_logs g) in
+    let l2 := rename_log L_WARN kwold true l1 in
     let ev := fold_left
                 (fun ev x => match assoc x ev with
                              | Some _ => ev
@@ -480,7 +506,7 @@ Section Env.
     let l3 := l2 ++ [(L_CMD, cmd_log)] in
     mkF (f_attrs g) ev (f_bevents g)
         (if warned then l3 ++ [(L_WARN, cmd_log)] else l3)
-        (f_tables g) (f_basins g).
+        (f_tables g) (f_basins g) (bump_version (f_soft g)).
 End Env.
 
 (* ---------------------------------------------------------------------- *)
@@ -505,20 +531,26 @@ Definition condense_crashes (dsval : Z -> list elem) (feats : list Z)
 (* fmt_hdf5/feat_defect.py: DEFECTIVE_FEATURES[feat](h5)                    *)
 (* ---------------------------------------------------------------------- *)
 (* The facts the five predicates read from the file; the software version
-   string "a | b | c" is abstracted to what they look at.  Not modelled: the
-   branch for a "shapein-acquisition" log (version parsed from the first
-   entry without the "ShapeIn" prefix). *)
-Definition ver := (Z * Z * Z)%type.
+   string "a | b | c" is abstracted to what they look at (first and last
+   segment only; segments in between play no role). *)
+(* a PEP 440 version as far as the comparisons with the release thresholds
+   need it: (major, minor, micro, phase) with phase < 0 for dev/alpha/beta/rc
+   pre-releases, 0 for the release, > 0 for post-releases and for further
+   release components *)
+Definition ver := (Z * Z * Z * Z)%type.
 Definition ver_ltb (a b : ver) : bool :=
-  let '(a1, a2, a3) := a in
-  let '(b1, b2, b3) := b in
-  (a1 <? b1) || ((a1 =? b1) && ((a2 <? b2) || ((a2 =? b2) && (a3 <? b3)))).
+  let '(a1, a2, a3, a4) := a in
+  let '(b1, b2, b3, b4) := b in
+  (a1 <? b1) || ((a1 =? b1) && ((a2 <? b2) || ((a2 =? b2) &&
+     ((a3 <? b3) || ((a3 =? b3) && (a4 <? b4)))))).
 
 Record dfacts := mkFacts {
   df_exact_aspect : bool;      (* the string is "ShapeIn 2.0.6" or "ShapeIn 2.0.7" *)
   df_has_shapein : bool;       (* "ShapeIn" occurs in the string *)
   df_last_dclab : option ver;  (* last entry starts with "dclab": its version *)
   df_first_shapein : option ver; (* first entry starts with "ShapeIn": its version *)
+  df_log_acq : bool;           (* a log "shapein-acquisition" exists *)
+  df_first_bare : option ver;  (* the first entry parsed as a version *)
   df_log_141 : bool;           (* a log "dclab_issue_141" exists *)
   df_has_frame : bool;         (* "frame" in events *)
   df_rate : bool;              (* imaging:frame rate is set and not 0 *)
@@ -538,21 +570,29 @@ Definition D_TIME := 6.
 Definition D_VOLUME := 7.
 
 Definition defect_inert (x : dfacts) : bool :=
-  df_roi_wide x && dclab_older x (0, 48, 3).
+  df_roi_wide x && dclab_older x (0, 48, 3, 0).
 
 Definition defect_inert_raw_cvx (x : dfacts) : bool :=
   defect_inert x &&
   match df_first_shapein x with
-  | Some si => ver_ltb si (2, 0, 5)     (* Shape-In >= 2.0.5 is trusted *)
-  | None => true                        (* other recording software *)
+  | Some si => ver_ltb si (2, 0, 5, 0)  (* Shape-In >= 2.0.5 is trusted *)
+  | None =>
+      if df_log_acq x then
+        (* newer Shape-In: the first entry is the bare version (an entry
+           that is no version makes parse_version raise: not modelled) *)
+        match df_first_bare x with
+        | Some si => ver_ltb si (2, 0, 5, 0)
+        | None => true
+        end
+      else true                         (* other recording software *)
   end.
 
 Definition defect_time (x : dfacts) : bool :=
   df_has_frame x && df_rate x &&
-  (df_time_f32 x || (df_has_shapein x && dclab_older x (0, 47, 6))).
+  (df_time_f32 x || (df_has_shapein x && dclab_older x (0, 47, 6, 0))).
 
 Definition defect_volume (x : dfacts) : bool :=
-  negb (df_log_141 x) && dclab_older x (0, 37, 0).
+  negb (df_log_141 x) && dclab_older x (0, 37, 0, 0).
 
 Definition defective_code (x : dfacts) (c : Z) : bool :=
   if c =? D_ASPECT then df_exact_aspect x
@@ -630,7 +670,8 @@ Definition enc_file (f : h5file) : list (list Z) :=
   ++ map (fun kd => [2; fst kd; -1] ++ enc_dset (snd kd)) (f_bevents f)
   ++ map (fun kd => [3; fst kd; -1] ++ enc_dset (snd kd)) (f_logs f)
   ++ map (fun kd => [4; fst kd; -1] ++ enc_dset (snd kd)) (f_tables f)
-  ++ map (fun kb => enc_bdef (fst kb) (snd kb)) (f_basins f).
+  ++ map (fun kb => enc_bdef (fst kb) (snd kb)) (f_basins f)
+  ++ [6 :: f_soft f].
 
 (* feature classes of a case: (id, bits) with bits = 1 exists + 2 scalar
    + 4 basinmap + 16 in ds.features_scalar (8: unused, the defect markers are
@@ -680,10 +721,11 @@ Definition run_case (c : ccase) : list (list Z) :=
     if c_task c =? 0 then
       repack fe fs fb fd case_rekey (nthb fl 0) (nthb fl 1) (c_file c)
     else if c_task c =? 1 then
-      compress fe fs fb fd case_rekey (nthb fl 0) (c_file c)
+      compress fe fs fb fd case_rekey (nthb fl 0) 902 903 (c_file c)
     else if c_task c =? 2 then
       condense fe fs fb fd case_rekey fsc dv (nthb fl 0) (nthb fl 1)
-               (nthb fl 2) (c_loaded c) (c_basin c) (c_anc c) (c_file c)
+               (nthb fl 2) (nthb fl 3) 902 903 (c_loaded c) (c_basin c)
+               (c_anc c) (c_file c)
     else
       rtdc_copy fe fs fb fd case_rekey
                 (if c_sel c =? 0 then FAll else if c_sel c =? 1 then FScalar
@@ -691,8 +733,7 @@ Definition run_case (c : ccase) : list (list Z) :=
                 (nthb fl 0) (nthb fl 1) (nthb fl 2) (c_file c) in
   enc_file out
   ++ (if c_task c =? 2 then
-        let g := rtdc_copy fe fs fb fd case_rekey FScalar true true true
-                           (c_file c) in
+        let g := condense_base fe fs fb fd case_rekey (nthb fl 3) (c_file c) in
         [[9; if condense_crashes dv
                   (condense_features fsc (nthb fl 0) (nthb fl 1) (c_loaded c)
                                      (c_basin c) (c_anc c) g) (f_events g)
